@@ -80,6 +80,13 @@ def decode(event, strings, via):
             else:
                 os.environ['TZ'] = saved
             time.tzset()
+    if via == 'twice':
+        # the SAME raw record object decoded twice (no copy in between): the caller's record is the caller's
+        first = OsLogEvent.from_raw_log_event(event, strings)
+        second = OsLogEvent.from_raw_log_event(event, strings)
+        if vars(first) != vars(second):
+            raise AssertionError('second decoding of the same record differs from the first')
+        return second
     if via in ('reversed', 'sorted'):
         return OsLogEvent.from_raw_log_event(reorder(copy.deepcopy(event), via), strings)
     if via == 'direct':
@@ -330,6 +337,10 @@ class C16(Check):
                     self._rec(acc, {'lsutz', 'leutz'}, 'direct', {'lsutz': {'mw': mw, 'dt': dt}, 'leutz': {'mw': -mw, 'dt': 6 - dt}})
             for lt in LOG_TYPES:
                 self._rec(acc, {'lt'}, 'direct', {'lt': lt})
+            # every optional key alone and all together, the same record object decoded twice
+            for k in KEYS:
+                self._rec(acc, {k}, 'twice')
+            self._rec(acc, set(KEYS), 'twice')
             self._rec(acc, {'bt', 'p'}, 'direct', {'bt': [{'iu': bytes([i % 256]) * 16, 'io': i} for i in range(300)]})
             self._rec(acc, {'dm'}, 'direct', {'dm': {'pc': 40, 's': 2, 'seg': [{'lp': 9, 'p': {'w': i, 'p': i + 1}, 'a': {'c': 1, 'sc': i}} for i in range(40)]}})
             # string-index slot 0 is a slot like any other
